@@ -1257,9 +1257,75 @@ class FnRewriter:
                     continue
                 else:
                     r22 = self._auto_closure(j, ce, hi, pathmap) if overlay_piece else None
+                    orc = self.unit.get('_oracle') or {}
+                    orc_here = r22 is None and overlay_piece and (callee or '?') in orc.get(self.fnkey, ())
+                    cs_bar = j
+                    if orc_here:
+                        ar, depth, seen_tok = 0, 0, False
+                        for x in toks[j + 1:ce]:
+                            if x.kind in ('ws', 'comment'):
+                                continue
+                            seen_tok = True
+                            if x.kind == 'punct' and x.text in '([<':
+                                depth += 1
+                            elif x.kind == 'punct' and x.text in ')]>':
+                                depth -= 1
+                            elif x.kind == 'punct' and x.text == ',' and depth == 0:
+                                ar += 1
+                        ar = ar + 1 if seen_tok else 0
+                        if ar <= 3:
+                            out('__oracle%d(' % ar, j)
+                        else:
+                            orc_here = False
                     for q in range(j, ce + 1):
                         out(toks[q].text, q)
                     j = ce + 1
+                    if orc_here:
+                        # oracle mode (vunit, second opinion on a failure in a function that has gained a closure
+                        # without a contract): the closure is given `ensures false`, i.e. every path through a call
+                        # of it is discharged vacuously; an obligation that STILL fails does not depend on what the
+                        # closure returns.  Never used for a result that is reported as proved.
+                        q = ce + 1
+                        while q < hi and toks[q].kind in ('ws', 'comment'):
+                            q += 1
+                        if toks[q].kind == 'punct' and toks[q].text == '-' and toks[q + 1].text == '>':
+                            while not (toks[q].kind == 'punct' and toks[q].text == '{'):
+                                q += 1
+                        if toks[q].kind == 'punct' and toks[q].text == '{':
+                            e = match_close(toks, q) + 1
+                        else:
+                            e = q
+                            while e < hi:
+                                te = toks[e]
+                                if te.kind == 'punct' and te.text in rustlex.OPEN:
+                                    e = match_close(toks, e) + 1
+                                    continue
+                                if te.kind == 'punct' and te.text in ',)]};':
+                                    break
+                                e += 1
+                        # arity: parameters at depth 0 between the bars
+                        arity, depth, seen_tok = 0, 0, False
+                        for x in toks[cs_bar + 1:ce]:
+                            if x.kind in ('ws', 'comment'):
+                                continue
+                            seen_tok = True
+                            if x.kind == 'punct' and x.text in '([<':
+                                depth += 1
+                            elif x.kind == 'punct' and x.text in ')]>':
+                                depth -= 1
+                            elif x.kind == 'punct' and x.text == ',' and depth == 0:
+                                arity += 1
+                        arity = arity + 1 if seen_tok else 0
+                        if arity <= 3:
+                            self.log.append({'rule': 'oracle', 'fn': self.fnkey, 'line': self.sf.line_of(t.start),
+                                             'what': 'closure %d wrapped in __oracle%d (oracle mode)' % (n, arity)})
+                            # the header has been emitted already: re-open the wrapper in front of it is not
+                            # possible, so the wrapper call is emitted around a second copy -- instead the header
+                            # emission below is skipped in oracle mode (see `orc_wrap`)
+                            self._emit_range(ce + 1, e, out, rw, pathmap, in_body, overlay_piece)
+                            out(')', e - 1)
+                            j = e
+                            continue
                     if r22 is None and overlay_piece:
                         # a closure the verifier knows nothing about (no annotation, no automatic postcondition):
                         # recorded so that vunit can compare with the unit's closure fingerprint
@@ -2210,6 +2276,18 @@ def strip_attrs_and_docs(sf, s, e):
     return ''.join(out)
 
 
+ORACLE_FNS = '''
+#[verifier::external_body] fn __oracle0<R, F: FnOnce() -> R>(f: F) -> (g: F)
+    ensures g.requires(()), forall|r: R| #[trigger] g.ensures((), r) ==> false, { f }
+#[verifier::external_body] fn __oracle1<A, R, F: FnOnce(A) -> R>(f: F) -> (g: F)
+    ensures forall|a: A| #[trigger] g.requires((a,)), forall|a: A, r: R| #[trigger] g.ensures((a,), r) ==> false, { f }
+#[verifier::external_body] fn __oracle2<A, B, R, F: FnOnce(A, B) -> R>(f: F) -> (g: F)
+    ensures forall|a: A, b: B| #[trigger] g.requires((a, b)), forall|a: A, b: B, r: R| #[trigger] g.ensures((a, b), r) ==> false, { f }
+#[verifier::external_body] fn __oracle3<A, B, C, R, F: FnOnce(A, B, C) -> R>(f: F) -> (g: F)
+    ensures forall|a: A, b: B, c: C| #[trigger] g.requires((a, b, c)), forall|a: A, b: B, c: C, r: R| #[trigger] g.ensures((a, b, c), r) ==> false, { f }
+'''
+
+
 def _spec_keys(text):
     """Normalised names (`Option::map_or`, `cmp::max`) of the functions given an assume_specification in text."""
     keys = []
@@ -2229,13 +2307,14 @@ def _spec_keys(text):
     return keys
 
 
-def build(unit_dir, repo, canary=False, auto_off=None):
+def build(unit_dir, repo, canary=False, auto_off=None, oracle=None):
     """Return dict(text=..., linemap=[origin per line], log=[...], items=[...]).
     auto_off: set of R22 marker names whose automatic closure postcondition is to be left out, or 'ALL'."""
     unit = load_unit(unit_dir, repo)
     unit['_canary'] = canary
     unit['_auto_off'] = auto_off if auto_off is not None else set()
     unit['_auto_seq'] = [0]
+    unit['_oracle'] = oracle or {}
     ov = Overlay(unit['overlay_path'])
     log = []
     pieces = []
@@ -2263,6 +2342,8 @@ def build(unit_dir, repo, canary=False, auto_off=None):
     head.append('verus! {\n')
     # R22 helper: one type parameter, so that the closure's result type is inferred from its body
     head.append('pub open spec fn __same_val<T>(a: T, b: T) -> bool { a == b }\n')
+    if unit['_oracle']:
+        head.append(ORACLE_FNS)
     pieces.append(Piece(''.join(head), ('gen', 'header')))
     env = open(unit['env_path'], encoding='utf-8').read()
     if not env.endswith('\n'):
